@@ -1,11 +1,12 @@
 import TbotVerif.Props.C01Shell
+import TbotVerif.Props.C01Status
 /-! C01 — "Linux shell commands get exactly the given args; output and status are exact":
     the END-TO-END theorems of the channel + shell-driver model against the answer of a POSIX
     shell behind a canonical-mode tty (ECHO on, ECHOCTL off — see `Tty.echo_length_ctl` for what
     goes wrong otherwise, F2).
 
     * `exec_exact`: for every command line without black-listed byte, every program output
-      without early prompt, every status < 256, every fragmentation of the two answers (cut
+      without early prompt, every status, every fragmentation of the two answers (cut
       anywhere, but with a piece boundary between the answer to the command and the answer to
       `echo $?` — the second answer does not exist before `echo $?` was sent), every arrival
       schedule, every chunk size ≥ 1, every slice size ≥ 1 (multi-slice lines included) and every
@@ -60,30 +61,40 @@ theorem promptOk_ash : promptOk Params.ashPrompt = true := by decide
 theorem promptOk_ne {ps1 : Bytes} (h : promptOk ps1 = true) : ps1 ≠ [] := by
   intro h'; subst h'; simp [promptOk] at h
 
-/-- the status round trip, as a finite table: what a shell prints for `$?` (0–255), through
-    ONLCR and tbot's text normalisation, parses back to the number; and it consists of digits,
-    CR and LF only -/
+/-- the status round trip as a finite table over the range a shell can produce (0–255), checked
+    by kernel evaluation of the model functions themselves — an independent cross-check of the
+    general `parseInt_status` / `status_bytes_kind` (C01Status), which hold for every `n` -/
 theorem status_table : ∀ n : Fin 256,
     parseInt (text (Tty.cook (statusBytes n.val ++ [Tty.LF]))) = some n.val
       ∧ ∀ c ∈ Tty.cook (statusBytes n.val ++ [Tty.LF]), digitOrNl c = true := by
   decide +kernel
 
-theorem statusOk_of (ps1 : Bytes) (st : Nat) (hst : st < 256) (hp : promptOk ps1 = true) : StatusOk ps1 st := by
-  obtain ⟨h1, h2⟩ := status_table ⟨st, hst⟩
-  refine ⟨?_, h1⟩
+theorem status_digitOrNl (n : Nat) : ∀ c ∈ Tty.cook (statusBytes n ++ [Tty.LF]), digitOrNl c = true := by
+  intro c hc
+  rcases status_bytes_kind n c hc with ⟨h1, h2⟩ | rfl | rfl
+  · have e1 : (48 : Byte) ≤ c := UInt8.le_iff_toNat_le.mpr h1
+    have e2 : c ≤ (57 : Byte) := UInt8.le_iff_toNat_le.mpr h2
+    simp [digitOrNl, e1, e2]
+  · rfl
+  · rfl
+
+/-- for EVERY status `st`: the answer to `echo $?` parses back to `st`, and a prompt that does
+    not start with a digit, CR or LF does not occur early in it -/
+theorem statusOk_of (ps1 : Bytes) (st : Nat) (hp : promptOk ps1 = true) : StatusOk ps1 st := by
+  refine ⟨?_, parseInt_status st⟩
   cases ps1 with
   | nil => simp [promptOk] at hp
   | cons c t =>
     apply noEarly_of_head
     intro hc
-    have := h2 c hc
+    have := status_digitOrNl st c hc
     simp only [promptOk, this, Bool.not_true] at hp
     exact absurd hp (by simp)
 
 /-! ### (2) EXEC EXACT -/
 
-/-- general form: the status part is the hypothesis `StatusOk` (any `Nat` whose printed form
-    round-trips and does not contain the prompt) -/
+/-- general form: the status part is the hypothesis `StatusOk` (the prompt may be anything that
+    does not occur early in the status answer) -/
 theorem exec_exact_gen (ps1 line out : Bytes) (st : Nat) (s : St) (sc1 sc2 tl : List Piece)
     (hps : ps1 ≠ []) (hsync : InSync ps1 s) (hscript : s.script = sc1 ++ sc2 ++ tl)
     (hwf1 : ∀ q ∈ sc1, q.data ≠ []) (hwf2 : ∀ q ∈ sc2, q.data ≠ [])
@@ -136,7 +147,7 @@ theorem exec_exact_gen (ps1 line out : Bytes) (st : Nat) (s : St) (sc1 sc2 tl : 
     digit, CR or LF); its script holds ANY fragmentation `sc1` of the answer to the command line
     and ANY fragmentation `sc2` of the answer to `echo $?` (non-empty pieces, arbitrary arrival
     ticks), followed by anything (`tl`); the black-list hits neither `line ⏎` nor `echo $? ⏎`;
-    the prompt does not occur early in `cook out ++ ps1`; `st < 256`.  Then, whatever the chunk
+    the prompt does not occur early in `cook out ++ ps1`; `st` is ANY status.  Then, whatever the chunk
     size, slice size, partial-write oracle: `exec line` returns `(st, text (cook out))`; the
     bytes accepted by the transport are exactly `line ⏎ echo $? ⏎`; exactly the two answers have
     been consumed; the final state is IN SYNC with the same configuration. -/
@@ -146,12 +157,12 @@ theorem exec_exact (ps1 line out : Bytes) (st : Nat) (s : St) (sc1 sc2 tl : List
     (hflat1 : flat sc1 = respCmd false ps1 line out) (hflat2 : flat sc2 = respStatus false ps1 st)
     (hbl1 : forbidden s.blacklist (line ++ [Tty.CR]) = false)
     (hbl2 : forbidden s.blacklist (echoStatusLine ++ [Tty.CR]) = false)
-    (hearly : NoEarly ps1 (Tty.cook out ++ ps1)) (hst : st < 256) :
+    (hearly : NoEarly ps1 (Tty.cook out ++ ps1)) :
     ∃ s', exec line s = (.ok (st, text (Tty.cook out)), s') ∧ s'.script = tl
       ∧ accepted s'.writes = accepted s.writes ++ (line ++ [Tty.CR] ++ (echoStatusLine ++ [Tty.CR]))
       ∧ InSync ps1 s' ∧ Same s s' :=
   exec_exact_gen ps1 line out st s sc1 sc2 tl (promptOk_ne hp) hsync hscript hwf1 hwf2 hflat1 hflat2 hbl1 hbl2
-    hearly (statusOk_of ps1 st hst hp)
+    hearly (statusOk_of ps1 st hp)
 
 /-! ### (3) `exec0`, `test`, rejection -/
 
@@ -176,13 +187,13 @@ theorem exec0_exact (ps1 line out : Bytes) (st : Nat) (s : St) (sc1 sc2 tl : Lis
     (hflat1 : flat sc1 = respCmd false ps1 line out) (hflat2 : flat sc2 = respStatus false ps1 st)
     (hbl1 : forbidden s.blacklist (line ++ [Tty.CR]) = false)
     (hbl2 : forbidden s.blacklist (echoStatusLine ++ [Tty.CR]) = false)
-    (hearly : NoEarly ps1 (Tty.cook out ++ ps1)) (hst : st < 256) :
+    (hearly : NoEarly ps1 (Tty.cook out ++ ps1)) :
     ∃ s', exec0 line s = (if st = 0 then .ok (text (Tty.cook out)) else .error (.commandFailure st), s')
       ∧ s'.script = tl
       ∧ accepted s'.writes = accepted s.writes ++ (line ++ [Tty.CR] ++ (echoStatusLine ++ [Tty.CR]))
       ∧ InSync ps1 s' ∧ Same s s' := by
   obtain ⟨s', h, rest⟩ := exec_exact ps1 line out st s sc1 sc2 tl hp hsync hscript hwf1 hwf2 hflat1 hflat2
-    hbl1 hbl2 hearly hst
+    hbl1 hbl2 hearly
   exact ⟨s', exec0_of_exec _ _ _ _ _ h, rest⟩
 
 theorem test_exact (ps1 line out : Bytes) (st : Nat) (s : St) (sc1 sc2 tl : List Piece)
@@ -191,12 +202,12 @@ theorem test_exact (ps1 line out : Bytes) (st : Nat) (s : St) (sc1 sc2 tl : List
     (hflat1 : flat sc1 = respCmd false ps1 line out) (hflat2 : flat sc2 = respStatus false ps1 st)
     (hbl1 : forbidden s.blacklist (line ++ [Tty.CR]) = false)
     (hbl2 : forbidden s.blacklist (echoStatusLine ++ [Tty.CR]) = false)
-    (hearly : NoEarly ps1 (Tty.cook out ++ ps1)) (hst : st < 256) :
+    (hearly : NoEarly ps1 (Tty.cook out ++ ps1)) :
     ∃ s', Shell.test line s = (.ok (st == 0), s') ∧ s'.script = tl
       ∧ accepted s'.writes = accepted s.writes ++ (line ++ [Tty.CR] ++ (echoStatusLine ++ [Tty.CR]))
       ∧ InSync ps1 s' ∧ Same s s' := by
   obtain ⟨s', h, rest⟩ := exec_exact ps1 line out st s sc1 sc2 tl hp hsync hscript hwf1 hwf2 hflat1 hflat2
-    hbl1 hbl2 hearly hst
+    hbl1 hbl2 hearly
   exact ⟨s', test_of_exec _ _ _ _ _ h, rest⟩
 
 /-- **REJECTION**: a black-listed byte in the line (or the Enter key) makes `exec` raise
@@ -234,7 +245,6 @@ structure Cmd.Ok (ps1 : Bytes) (bl : List Byte) (c : Cmd) : Prop where
   flat2 : flat c.sc2 = respStatus false ps1 c.st
   legal : forbidden bl (c.line ++ [Tty.CR]) = false
   early : NoEarly ps1 (Tty.cook c.out ++ ps1)
-  status : c.st < 256
 
 /-- `exec` called for each line in turn on the same channel -/
 def execSeq : List Bytes → St → List (Except ShExc (Nat × List Char)) × St
@@ -264,7 +274,7 @@ theorem execSeq_exact (ps1 : Bytes) (hp : promptOk ps1 = true) : ∀ (cmds : Lis
     have hscript' : s.script = c.sc1 ++ c.sc2 ++ ((cs.map fun c => c.sc1 ++ c.sc2).flatten ++ tl) := by
       rw [hscript]; simp [List.append_assoc]
     obtain ⟨s1, hexec, hsc1, hacc1, hsync1, hsame1⟩ := exec_exact ps1 c.line c.out c.st s c.sc1 c.sc2 _ hp hsync
-      hscript' hc.wf1 hc.wf2 hc.flat1 hc.flat2 hc.legal hbl2 hc.early hc.status
+      hscript' hc.wf1 hc.wf2 hc.flat1 hc.flat2 hc.legal hbl2 hc.early
     obtain ⟨s', hseq, hsc', hacc', hsync', hsame'⟩ := ih s1 tl hsync1
       (by intro c' hc'; rw [hsame1.blacklist]; exact hok c' (List.mem_cons_of_mem _ hc'))
       (by rw [hsame1.blacklist]; exact hbl2) hsc1
@@ -420,10 +430,10 @@ theorem writes_ne_of_accepted {ws : List (Bytes × Nat)} {b : Bytes} (h : accept
 /-- **(4) the Spec holds of the model run of one command**, for every cut list `pieces` that
     cuts the remote's answer at (among other places) the boundary between the answer to the
     command and the answer to `echo $?` — i.e. `cutBy pieces (r1 ++ r2) = cutBy p1 r1 ++ cutBy p2 r2`
-    for some `p1 p2` — when the program's output has no early prompt and its status is < 256.
+    for some `p1 p2` — when the program's output has no early prompt (any status).
     (In the rejected case no hypothesis but the black-list hit is used.) -/
 theorem specCmd_runCmd (c : ShCase) (cmd : ShCmd) (pieces p1 p2 : List Nat) (hc : 0 < c.chunk)
-    (hst : cmd.status < 256) (hearly : NoEarly (prompt c) (Tty.cook cmd.out ++ prompt c))
+    (hearly : NoEarly (prompt c) (Tty.cook cmd.out ++ prompt c))
     (hcut : cutBy pieces (respCmd false (prompt c) (lineOf cmd) cmd.out ++ respStatus false (prompt c) cmd.status)
       = cutBy p1 (respCmd false (prompt c) (lineOf cmd) cmd.out) ++ cutBy p2 (respStatus false (prompt c) cmd.status)) :
     specCmd c cmd (runCmd c cmd pieces) = true := by
@@ -478,7 +488,7 @@ theorem specCmd_runCmd (c : ShCase) (cmd : ShCmd) (pieces p1 p2 : List Nat) (hc 
     obtain ⟨s', hexec, _, hacc, _, _⟩ := exec_exact (prompt c) (lineOf cmd) cmd.out cmd.status s0 _ _ [] (promptOk_case c)
       hsync0 hscript (wf_toScript _ _) (wf_toScript _ _)
       (by rw [flat_toScript, cutBy_flatten]) (by rw [flat_toScript, cutBy_flatten])
-      (by rw [hbl0]; exact hf') (by rw [hbl0]; exact echoStatus_legal c) hearly hst
+      (by rw [hbl0]; exact hf') (by rw [hbl0]; exact echoStatus_legal c) hearly
     have hran : s'.writes.isEmpty = false := by
       refine writes_ne_of_accepted hacc ?_
       rw [hw0]
@@ -502,18 +512,18 @@ theorem specCmd_runCmd (c : ShCase) (cmd : ShCmd) (pieces p1 p2 : List Nat) (hc 
 
 /-- (4) with the boundary condition in arithmetic form -/
 theorem specCmd_runCmd_sum (c : ShCase) (cmd : ShCmd) (p1 p2 : List Nat) (hc : 0 < c.chunk)
-    (hst : cmd.status < 256) (hearly : NoEarly (prompt c) (Tty.cook cmd.out ++ prompt c))
+    (hearly : NoEarly (prompt c) (Tty.cook cmd.out ++ prompt c))
     (hsum : p1.sum = (respCmd false (prompt c) (lineOf cmd) cmd.out).length) :
     specCmd c cmd (runCmd c cmd (p1 ++ p2)) = true :=
-  specCmd_runCmd c cmd (p1 ++ p2) p1 p2 hc hst hearly (cutBy_boundary p1 p2 _ _ hsum)
+  specCmd_runCmd c cmd (p1 ++ p2) p1 p2 hc hearly (cutBy_boundary p1 p2 _ _ hsum)
 
 /-- a case the model run of which is covered by the theorem: positive chunk size, and for every
-    command status < 256, no early prompt, and a cut list that respects the phase boundary -/
+    command no early prompt and a cut list that respects the phase boundary -/
 structure CaseOk (c : ShCase) (pieces : List (List Nat)) : Prop where
   chunk : 0 < c.chunk
   len : pieces.length = c.cmds.length
   cmds : ∀ x ∈ c.cmds.zip pieces,
-    x.1.status < 256 ∧ NoEarly (prompt c) (Tty.cook x.1.out ++ prompt c)
+    NoEarly (prompt c) (Tty.cook x.1.out ++ prompt c)
       ∧ ∃ p1 p2, cutBy x.2 (respCmd false (prompt c) (lineOf x.1) x.1.out
           ++ respStatus false (prompt c) x.1.status)
         = cutBy p1 (respCmd false (prompt c) (lineOf x.1) x.1.out)
@@ -542,8 +552,8 @@ theorem spec_holds (c : ShCase) (pieces : List (List Nat)) (h : CaseOk c pieces)
   unfold Spec.C01 Shell.run
   refine specAll_zip c c.cmds pieces h.len ?_
   intro x hx
-  obtain ⟨h1, h2, p1, p2, h3⟩ := h.cmds x hx
-  exact specCmd_runCmd c x.1 x.2 p1 p2 h.chunk h1 h2 h3
+  obtain ⟨h2, p1, p2, h3⟩ := h.cmds x hx
+  exact specCmd_runCmd c x.1 x.2 p1 p2 h.chunk h2 h3
 
 /-! ### non-vacuity, and why the hypotheses are there -/
 
@@ -567,7 +577,7 @@ example :
   obtain ⟨s', h1, h2, h3, h4, _⟩ := exec_exact Params.bashPrompt [108, 115] [97, 10, 98, 10] 42 s _ _ [⟨7, [120]⟩]
     promptOk_bash ⟨rfl, rfl, rfl, rfl, by decide, by decide, by intro h; simp [s] at h⟩ rfl
     (wf_toScript _ _) (wf_toScript _ _) (by rw [flat_toScript, cutBy_flatten]) (by rw [flat_toScript, cutBy_flatten])
-    (by decide) (by decide +kernel) (noEarly_bash _ (by decide)) (by decide)
+    (by decide) (by decide +kernel) (noEarly_bash _ (by decide))
   exact ⟨s', h1, h2, by simpa [accepted, s] using h3, h4⟩
 
 /-- two commands in a row on dash (`true`, status 0, no output; then `false`, status 1): the
@@ -585,10 +595,10 @@ example :
   intro c1 c2 s
   have ok1 : c1.Ok Params.ashPrompt s.blacklist :=
     ⟨wf_toScript _ _, wf_toScript _ _, by rw [flat_toScript, cutBy_flatten], by rw [flat_toScript, cutBy_flatten],
-     by decide, noEarly_of_head 84 _ (Tty.cook []) (by decide), by decide⟩
+     by decide, noEarly_of_head 84 _ (Tty.cook []) (by decide)⟩
   have ok2 : c2.Ok Params.ashPrompt s.blacklist :=
     ⟨wf_toScript _ _, wf_toScript _ _, by rw [flat_toScript, cutBy_flatten], by rw [flat_toScript, cutBy_flatten],
-     by decide, noEarly_of_head 84 _ (Tty.cook []) (by decide), by decide⟩
+     by decide, noEarly_of_head 84 _ (Tty.cook []) (by decide)⟩
   obtain ⟨s', h1, h2, _⟩ := execSeq_exact Params.ashPrompt promptOk_ash [c1, c2] s []
     ⟨rfl, rfl, rfl, rfl, by decide, by decide, by intro h; simp [s] at h⟩
     (by intro c hc
@@ -611,7 +621,7 @@ example :
   intro x hx
   simp only [c, List.zip_cons_cons, List.zip_nil_right, List.mem_singleton] at hx
   subst hx
-  refine ⟨by decide, noEarly_bash _ (by decide), [10, 20, 18], [7, 100], ?_⟩
+  refine ⟨noEarly_bash _ (by decide), [10, 20, 18], [7, 100], ?_⟩
   exact cutBy_boundary _ _ _ _ (by decide +kernel)
 
 /-- NO-EARLY-PROMPT is needed: prompt "$ ", a program that prints "$ " (status 0), and a
